@@ -325,9 +325,16 @@ fn run_history(steps: &[Step], root: &Path, warm_up: bool, verbose: bool, stats:
             }
             Step::Change { file, text } => {
                 let rel = FILES[*file as usize % FILES.len()];
-                // editors only send didChange for documents they have opened
+                // editors only send didChange for documents they have opened: a change of a closed
+                // document is delivered as its didOpen
                 if !open.contains_key(rel) {
-                    stats.labels.insert("skipped:didChange-of-closed-document".into());
+                    if !opened && queried {
+                        stats.first_open_after_first_query = true;
+                    }
+                    opened = true;
+                    live.open(rel, text);
+                    open.insert(rel, text.clone());
+                    stats.labels.insert("step:didOpen".into());
                     continue;
                 }
                 live.change(rel, text);
@@ -336,11 +343,12 @@ fn run_history(steps: &[Step], root: &Path, warm_up: bool, verbose: bool, stats:
                 stats.labels.insert("step:didChange".into());
             }
             Step::Close { file } => {
-                let rel = FILES[*file as usize % FILES.len()];
-                if open.remove(rel).is_none() {
-                    stats.labels.insert("skipped:didClose-of-closed-document".into());
+                // one of the open documents
+                let Some(rel) = open.keys().nth(*file as usize % open.len().max(1)).copied() else {
+                    stats.labels.insert("skipped:didClose-without-open-document".into());
                     continue;
-                }
+                };
+                open.remove(rel);
                 if changed_since_open.remove(rel) {
                     stats.close_after_change = true;
                 }
@@ -394,10 +402,6 @@ fn run_history(steps: &[Step], root: &Path, warm_up: bool, verbose: bool, stats:
                     _ => Position { line: 0, character: 0 },
                 };
                 let dirty = open.iter().any(|(r, t)| std::fs::read_to_string(root.join(r)).ok().as_deref() != Some(t.as_str()));
-                stats.queries += 1;
-                if dirty {
-                    stats.queries_with_dirty_buffer += 1;
-                }
                 let kind_name = match kind {
                     QueryKind::Validate => "validate",
                     QueryKind::Tokens => "semantic-tokens",
@@ -405,6 +409,18 @@ fn run_history(steps: &[Step], root: &Path, warm_up: bool, verbose: bool, stats:
                     QueryKind::Hover(_) => "hover",
                     QueryKind::Goto(_) => "goto-definition",
                 };
+                if !tracked && matches!(kind, QueryKind::Tokens) {
+                    // both servers panic ("Expected source to exist") for a semantic-tokens request on a
+                    // project file that is not on disk; asked rarely so that histories go on
+                    if i % 8 != 0 {
+                        stats.labels.insert("skipped:semantic-tokens-for-file-missing-on-disk(panics-on-both-servers)".into());
+                        continue;
+                    }
+                }
+                stats.queries += 1;
+                if dirty {
+                    stats.queries_with_dirty_buffer += 1;
+                }
                 stats.labels.insert(format!("query:{kind_name}"));
                 if !tracked {
                     stats.labels.insert("query:on-file-missing-on-disk".into());
@@ -412,6 +428,18 @@ fn run_history(steps: &[Step], root: &Path, warm_up: bool, verbose: bool, stats:
                 queried = true;
 
                 let got = live.query(rel, kind, position);
+                let shape = if got.get("panic").is_some() {
+                    "panic"
+                } else if got.get("err").is_some() {
+                    "error"
+                } else if matches!(kind, QueryKind::Validate) {
+                    if got["diagnostics"].as_array().is_some_and(|a| a.is_empty()) { "no-diagnostics" } else { "diagnostics" }
+                } else if got["ok"].is_null() {
+                    "null"
+                } else {
+                    "some"
+                };
+                stats.labels.insert(format!("answer:{kind_name}:{shape}"));
                 // the fresh server: same disk, open buffers inserted before the query
                 let (fsender, _freceiver) = crossbeam::channel::unbounded::<lsp_server::Message>();
                 let fresh_answer = |with_buffers: bool| -> Result<Value, Stop> {
@@ -453,6 +481,7 @@ fn run_history(steps: &[Step], root: &Path, warm_up: bool, verbose: bool, stats:
                 if got.get("panic").is_some() {
                     // both servers panic alike; the real server would be gone now
                     stats.live_panics += 1;
+                    stats.labels.insert(format!("panic-on-both-servers:{kind_name}:{}:{}", got["panic"].as_str().unwrap_or(""), got["message"].as_str().unwrap_or("").chars().take(48).map(|c| if c.is_control() { ' ' } else { c }).collect::<String>()));
                     stats.labels.insert("ended:handler-panics-on-both-servers".into());
                     return Ok(());
                 }
@@ -556,7 +585,7 @@ fn worker_root(base: &Path) -> PathBuf {
 /// First didOpen happens after the first query?
 fn first_open_after_first_query(steps: &[Step]) -> bool {
     let q = steps.iter().position(|s| matches!(s, Step::Query { .. }));
-    let o = steps.iter().position(|s| matches!(s, Step::Open { .. }));
+    let o = steps.iter().position(|s| matches!(s, Step::Open { .. } | Step::Change { .. }));
     matches!((q, o), (Some(q), Some(o)) if q < o)
 }
 
@@ -617,7 +646,7 @@ fn main() {
         && include != "all";
     report.extra("excluded_switches", json!(if exclude_first_open { vec!["stale-after-first-open"] } else { vec![] }));
 
-    let cases = args.tier.pick(3000u32, 90000u32);
+    let cases = args.tier.pick(10000u32, 300000u32);
     let totals = std::sync::Mutex::new((0u64, 0u64, 0u64));
     let found = vcore::run_prop_parallel(&report, "histories", cases, vcore::num_workers(), history, |steps: &Vec<Step>| {
         let risky = first_open_after_first_query(steps);
